@@ -59,7 +59,7 @@ PLANS = {
     ),
     'C09': dict(
         oracle='C09', level='exploration',
-        profiles=[('pseudo', 4), ('pseudo_nc', 2)], curated=[], configs=ALLCFG,
+        profiles=[('pseudo', 4), ('pseudo_nc', 2), ('hist_explicit', 1)], curated=[], configs=ALLCFG,
         cp=dict(max_ops=30, kinds=['P']), examples=(400, 3000), floor=(100, 1000),
         rule='Generated histories on machines combining direct<>, fork, entry_pt<> and exit_pt<> rows; oracle: every step that '
              'touches a pseudo construct (pseudo state entered/left, pseudo row consulted, or an exit point event sent while the '
